@@ -137,4 +137,15 @@ def validTrace (l : List Ev) (complete : Bool) : Bool :=
   let fin := if complete then l.any (fun e => match e with | .done _ => true | _ => false) else true
   perChan && fifo && noDup && fin
 
+/-- orders at the end of the stream that the pipeline also guarantees (proved for every schedule in
+`Props.C08trace.R.trace_tail`): no block is read after the sentinel was queued; nothing is delivered after `done` -/
+def tailOK : List Ev → Bool
+  | [] => true
+  | .sentinel _ :: l => l.all (fun e => match e with | .read _ => false | _ => true) && tailOK l
+  | .done _ :: l => l.all (fun e => match e with | .delivered _ => false | _ => true) && tailOK l
+  | _ :: l => tailOK l
+
+/-- the check applied to recorded traces -/
+def validTraceStrict (l : List Ev) (complete : Bool) : Bool := validTrace l complete && tailOK l
+
 end Lz4V.Model.PipeR
